@@ -4,7 +4,7 @@ Proof: coq/Props/C11.v over coq/Model/Push.v (any interleaving of pushes / loop 
 Tie (C): the real AsyncioConnection.push/_push_msg/handle_write and TwistedConnection.push are driven by N real threads
 on a socket.socketpair(); the bytes received by the peer are (a) checked against the statement directly and (b) compared
 with the model run under the schedule read off the received stream; the chunk lists the real push() enqueues are compared
-with the model's `chunks`.
+with the model's `chunks`.  Protocol v5 send path: real send_msg from two threads under vf.detsched line schedules + shared-state audit.
 Partial: the asyncio/twisted schedulers and real thread timing are outside the model (FIFO hand-off is assumed).
 """
 import json, os
@@ -167,6 +167,50 @@ def observed_chunks(P, sizes, bufsize):
         b.close()
 
 
+def send_path(ctx, cases, meta):
+    """protocol v5: what reaches push() is assembled by Connection.send_msg, which application threads call concurrently
+    WITHOUT a lock.  Real send_msg of real QueryMessages on a checksumming connection, two threads switched line by line
+    inside cassandra/connection.py (vf.detsched: every schedule with <= 2 preemptions), pushed bytes decoded with the
+    driver's SegmentCodec; plus the shared-mutable-state audit of send_msg."""
+    from vf import push_send as S, detsched
+    probs = S.audit_send_msg(core.REPO)
+    ctx.extra['send_msg_shared_state_audit'] = probs or 'ok: send_msg touches only whitelisted configuration attributes and a fresh local buffer'
+    ctx.trust('shared-state audit of Connection.send_msg (lib/vf/push_send.py:audit_send_msg); vf.detsched line-granular scheduler (search aid)')
+    if probs:
+        ctx.proof_broken.append(('shared-state-audit:send_msg', '; '.join(probs)))
+    plans = [(5, [[20], [30]], 16, 2), (5, [[5, 40], [12]], 30, 1)]
+    if ctx.tier == 'thorough':
+        plans += [(6, [[20], [30]], 16, 2), (5, [[5, 40], [12, 3]], 40, 2), (5, [[200000], [10]], 16, 1)]
+    reported = set()
+    for version, spec, steps, preempt in plans:
+        ref = S.reference(spec, version)
+        for sched in detsched.schedules_two_threads(steps, preempt):
+            pushed, errs, _n = S.run_schedule(spec, sched, version)
+            fail = S.oracle(spec, ref, pushed, version)
+            if errs and not fail:
+                fail = ('send-raised', errs[0])
+            ctx.case(['send_msg', version, spec, sched], nontrivial=len(set(sched)) > 1)
+            ctx.count('reactor', 'send_msg-v%d-detsched' % version)
+            if fail:
+                key = 'send_msg.v5-segments.%s' % fail[0]
+                if key not in reported:
+                    reported.add(key)
+                    ctx.violation(key, 'protocol v%d send_msg from two threads, line schedule %r: %s (query sizes per thread %r)' % (version, sched, fail[1], spec),
+                                  case={'send_path': True, 'version': version, 'spec': spec, 'schedule': sched}, kind='interleaving',
+                                  expected='every request written whole, exactly once, per-thread order', actual={'pushes': len(pushed)}, theorem='C11_order')
+                continue
+            # model: each send_msg is one push of the message's bytes; the pushed order is the schedule witness
+            order = [S.decode_stream(b, version)[0][0] for b in pushed]
+            progs = [[(S.sid(t, i), len(ref[S.sid(t, i)])) for i in range(len(p))] for t, p in enumerate(spec)]
+            g = 'check_wire_z Whole %s [%s] %d [%s]' % (
+                '[' + '; '.join('[' + '; '.join('(%d, %d)' % x for x in p) + ']' for p in progs) + ']',
+                '; '.join('%d%%nat' % ((o - 1) // 16) for o in order), 2 * len(order) + 2,
+                '; '.join('(%d, %d)' % (o, len(ref[o])) for o in order))
+            if g not in cases:
+                cases.append(g)
+                meta.append(('send_msg-v%d' % version, 0, spec, False))
+
+
 def run(ctx):
     ok = ctx.prove('Props/C11.v')
     if ctx.tier == 'thorough' and ok:
@@ -221,6 +265,7 @@ def run(ctx):
                               actual={'received_runs': runs[:40], 'bytes': len(got)}, theorem='C11_order', kind='interleaving')
             cases.append(g_case(kind, bufsize, spec, sched, runs))
             meta.append((kind, bufsize, spec, bool(fail)))
+        send_path(ctx, cases, meta)
         # chunk lists of the real push() vs the model's chunks
         chunk_cases, chunk_meta = [], []
         if 'asyncio' not in dead:
@@ -263,6 +308,14 @@ def run(ctx):
 
 def replay(ctx, rp):
     case = rp.get('case') or ({'reactor': rp['reactor'], 'bufsize': rp['bufsize'], 'progs': rp['progs']} if 'progs' in rp else {})   # replay file or corpus file
+    if case.get('send_path'):
+        from vf import push_send as S
+        ref = S.reference(case['spec'], case['version'])
+        pushed, errs, _n = S.run_schedule(case['spec'], case['schedule'], case['version'])
+        fail = S.oracle(case['spec'], ref, pushed, case['version']) or (('send-raised', errs[0]) if errs else None)
+        print('replay send_msg v%d spec %r schedule %r -> %d pushes; %s' % (case['version'], case['spec'], case['schedule'], len(pushed), fail))
+        print(('VIOLATION property=C11 replay=%s' % ctx.replay_path) if fail else 'not reproduced')
+        return 1 if fail else 0
     if 'progs' not in case:
         print('nothing to replay: %s' % rp.get('theorem'))
         return 1
